@@ -132,7 +132,21 @@ def parseKind : String → Option Kind
 def inInt64 (v : Int) : Bool := -9223372036854775808 ≤ v && v ≤ 9223372036854775807
 def inU64 (h : Nat) : Bool := h < 18446744073709551616
 
-def validName (s : String) : Bool := !s.isEmpty && s.all (fun c => c.isAlphanum || c = '_')
+def plainChar (c : Char) : Bool := c.isAlphanum || c = '_'
+def lowerHexVal (c : Char) : Option Nat :=
+  if '0' ≤ c ∧ c ≤ '9' then some (c.toNat - '0'.toNat) else if 'a' ≤ c ∧ c ≤ 'f' then some (c.toNat - 'a'.toNat + 10) else none
+
+/-- String key text: letters, digits, `_`, and `~hh` (two lower-case hex digits) for any other non-zero byte — the escape is
+    required for exactly those bytes, so a byte string has one spelling and equality of names is equality of the bytes -/
+def validNameChars : List Char → Bool
+  | [] => true
+  | '~' :: a :: b :: rest =>
+    match lowerHexVal a, lowerHexVal b with
+    | some x, some y => let v := x * 16 + y; v ≠ 0 && !(plainChar (Char.ofNat v)) && validNameChars rest
+    | _, _ => false
+  | c :: rest => plainChar c && validNameChars rest
+
+def validName (s : String) : Bool := !s.isEmpty && validNameChars s.toList
 
 /-- key token: kind I `<int>`; kinds S and P `<text>:<hash>` (P: text is the decimal id) -/
 def parseKey (kind : Kind) (tok : String) : Option K :=
@@ -181,7 +195,6 @@ structure St where
   nKeyErr : Nat := 0
   nReplace : Nat := 0
   nDisplace : Nat := 0
-  nAliasDepart : Nat := 0     -- `getv` lines on which the model (as the code) departs from the map: known finding KF-C02-get-alias
 
 
 def main (args : List String) : IO Unit := do
@@ -234,10 +247,8 @@ def main (args : List String) : IO Unit := do
             let so : Obs K Int := if nm == "getk" then (match Spec.get m k with | none => .raised .KeyError | some v => .val v)
                                   else Spec.getOfVal (asKey kind) m k
             if !(obsEq o so) then
-              if nm == "getv" then st := { st with nAliasDepart := st.nAliasDepart + 1 }
-              else
-                IO.println s!"M line={lineNo} op={nm} model={obsStr o} spec={obsStr so}"
-                st := { st with nMism := st.nMism + 1 }
+              IO.println s!"M line={lineNo} op={nm} model={obsStr o} spec={obsStr so}"
+              st := { st with nMism := st.nMism + 1 }
         continue
     let parsed : Option (Op K Int × Option K × String × Bool) := match w with
       | ["new", _, k] => (parseKind k).map (fun _ => (.new t, none, "new", true))
@@ -334,4 +345,4 @@ def main (args : List String) : IO Unit := do
           if !(invOk after) then
             IO.println s!"M line={lineNo} op={name} invariant-broken {dump after key false}"
             st := { st with nMism := st.nMism + 1 }
-  IO.println s!"S ops={st.nOps} maxslots={st.maxSlots} rehashes={st.nRehash} keyerrors={st.nKeyErr} replaces={st.nReplace} model-mismatches={st.nMism} alias-departures={st.nAliasDepart} shadow={st.shadow}"
+  IO.println s!"S ops={st.nOps} maxslots={st.maxSlots} rehashes={st.nRehash} keyerrors={st.nKeyErr} replaces={st.nReplace} model-mismatches={st.nMism} shadow={st.shadow}"
